@@ -93,13 +93,32 @@ def run(rng, tier, res=None, want=("prim", "fit", "semi")):
         o.pre_distances = M
         X = np.zeros((n, 1)); Y = np.array(lab, dtype=int)
         o.subgraph = Subgraph(X, Y, I=(np.array(I) if I is not None else None))
-        o._find_prototypes()
+        import opfython.models.supervised as _S
+        removed = []
+
+        class _RecHeap(_S.Heap):
+            def remove(self, _r=removed):
+                v = super().remove()
+                if v is not False:
+                    _r.append(v)
+                return v
+        _orig_heap = _S.Heap
+        _S.Heap = _RecHeap
+        try:
+            o._find_prototypes()
+        finally:
+            _S.Heap = _orig_heap
         w = [[enc(M[idx[p]][idx[q]]) for q in range(n)] for p in range(n)]
         line = f"prim {n} {TOP} {ints(lab)} {ints(v for r in w for v in r)}"
         ob = forest_obs(o.subgraph, n) + " | 1"
         lines.append(line); obs.append(ob)
-        meta = {"stream": "prim", "n": n, "kind": kind, "labels": lab, "I": I, "M": M.tolist()}
+        meta = {"stream": "prim", "n": n, "kind": kind, "labels": lab, "I": I, "M": M.tolist(), "caseid": f"prim{case}", "tier": "A"}
         metas.append(meta)
+        # tier B: the real removal order of Prim replayed through the relational semantics
+        ndp = o.subgraph.nodes
+        lines.append(f"lawprim {n} {TOP} {ints(lab)} {ints(v for r in w for v in r)} {len(removed)} {ints(removed)}")
+        obs.append(f"lawful 1 | {ints(ndp[i].pred for i in range(n))} | {ints(1 if ndp[i].status == 1 else 0 for i in range(n))}")
+        metas.append({"stream": "lawprim", "caseid": f"prim{case}", "tier": "B"})
         ties = len({M[idx[p]][idx[q]] for p in range(n) for q in range(p + 1, n)}) < n * (n - 1) // 2
         res.add_case(line, nontrivial=(n >= 3 and len(set(lab)) >= 2))
         res.hit("prim_" + kind); res.hit("prim_ties" if ties else "prim_tiefree")
@@ -271,7 +290,7 @@ def run(rng, tier, res=None, want=("prim", "fit", "semi")):
         ob = f"{fobs} | 1 | {ints(preds)} | {ints(rel)}"
         lines.append(line); obs.append(ob)
         meta = {"stream": "semi" if semi else "fit", "nLab": nLab, "nU": nU, "kind": kind, "labels": lab,
-                "I": I, "Iq": Iq, "M": M.tolist(), "caseid": f"fit{case}", "tier": "A"}
+                "I": I, "Iq": Iq, "M": M.tolist(), "caseid": f"fit{case}", "tier": "A", "classes": len(set(lab))}
         metas.append(meta)
         # prediction pass modelled on the IMPLEMENTATION's fitted forest (independent of how it was fitted)
         if nq:
